@@ -2,7 +2,7 @@
 (docs/proxy-proof-spec.md §6) says step 1 `no_proof` is "header absent" and step 2 "value empty" is `malformed`.
 Run: /venv/bin/python /verif/repro/C22_empty_header_no_proof.py   (reads /repo, writes nothing)"""
 import logging, sys
-sys.path.insert(0, "/repo")
+import os; sys.path.insert(0, os.environ.get("VGI_REPO", "/repo"))
 from vgi_rpc.http._proof import ProxyProofConfig, proxy_proof_gate, PROOF_HEADER
 
 class Req:
